@@ -687,10 +687,12 @@ func (r *refinementNumber) assertConsistentBounds() {
 		return // If only one bound is constrained then there's nothing to be inconsistent with
 	}
 	var ok Value
-	if r.minInc != r.maxInc {
-		ok = r.min.LessThan(r.max)
-	} else {
+	if r.minInc && r.maxInc {
 		ok = r.min.LessThanOrEqualTo(r.max)
+	} else {
+		// With at least one exclusive bound the range is empty when the
+		// bounds are equal.
+		ok = r.min.LessThan(r.max)
 	}
 	if ok.IsKnown() && ok.False() {
 		panic(fmt.Sprintf("number lower bound %#v is greater than upper bound %#v", r.min, r.max))
